@@ -287,6 +287,19 @@ Example C01_real_init_segment :
   forallb exact_box (seq_of rf_init_video) = true /\ bytes_ok rf_init_video = true /\
   encode_seq false (seq_of rf_init_video) = Ok rf_init_video.
 Proof. exact real_init_ok. Qed.
+(* an AAC init segment (mp4a{esds}) and an HEVC init segment (hvc1{hvcC}): no box is left opaque *)
+Example C01_real_init_aac :
+  decode_file rf_init_aac = Ok (seq_of rf_init_aac) /\ names_of (seq_of rf_init_aac) = [n_ftyp; n_skip; n_moov] /\
+  forallb exact_box (seq_of rf_init_aac) = true /\ flat_map why_box (seq_of rf_init_aac) = [] /\
+  count_leaves n_esds (seq_of rf_init_aac) = 1%nat /\ bytes_ok rf_init_aac = true /\
+  encode_seq false (seq_of rf_init_aac) = Ok rf_init_aac.
+Proof. exact real_init_aac_ok. Qed.
+Example C01_real_init_hvc1 :
+  decode_file rf_init_hvc1 = Ok (seq_of rf_init_hvc1) /\ names_of (seq_of rf_init_hvc1) = [n_ftyp; n_moov] /\
+  forallb exact_box (seq_of rf_init_hvc1) = true /\ flat_map why_box (seq_of rf_init_hvc1) = [] /\
+  count_leaves n_hvcC (seq_of rf_init_hvc1) = 1%nat /\ bytes_ok rf_init_hvc1 = true /\
+  encode_seq false (seq_of rf_init_hvc1) = Ok rf_init_hvc1.
+Proof. exact real_init_hvc1_ok. Qed.
 Example C01_real_media_segment :
   decode_file rf_media_seg = Ok (seq_of rf_media_seg) /\
   names_of (seq_of rf_media_seg) = [n_styp; n_sidx; n_moof; n_mdat] /\
